@@ -86,6 +86,7 @@ typedef struct kind_t {
 
 static int comp_id;
 static int comp_uncompress;
+static int comp_options_ops;	/* histories include read_options / write_options */
 static uint64_t comp_variant;	/* 0 = default options; otherwise seeds non-default options (same for all objects of a run) */
 
 static void comp_config(sqfs_compressor_config_t *cfg)
@@ -125,6 +126,75 @@ static void comp_config(sqfs_compressor_config_t *cfg)
 	}
 }
 
+
+/* a 256 byte in-memory file for compressor option blocks (read_options / write_options as operations of a history) */
+typedef struct { sqfs_file_t base; unsigned char data[256]; size_t size; } memfile_t;
+static void mf_destroy(sqfs_object_t *o) { (void)o; }
+static int mf_read_at(sqfs_file_t *f, sqfs_u64 off, void *buf, size_t n)
+{
+	memfile_t *m = (memfile_t *)f;
+	if (off > m->size || n > m->size - off) return SQFS_ERROR_OUT_OF_BOUNDS;
+	memcpy(buf, m->data + off, n);
+	return 0;
+}
+static int mf_write_at(sqfs_file_t *f, sqfs_u64 off, const void *buf, size_t n)
+{
+	memfile_t *m = (memfile_t *)f;
+	if (off > sizeof(m->data) || n > sizeof(m->data) - off) return SQFS_ERROR_OUT_OF_BOUNDS;
+	memcpy(m->data + off, buf, n);
+	if (off + n > m->size) m->size = off + n;
+	return 0;
+}
+static sqfs_u64 mf_get_size(const sqfs_file_t *f) { return ((const memfile_t *)f)->size; }
+static int mf_truncate(sqfs_file_t *f, sqfs_u64 sz) { memfile_t *m = (memfile_t *)f; if (sz > sizeof(m->data)) return SQFS_ERROR_OUT_OF_BOUNDS; m->size = sz; return 0; }
+static const char *mf_name(sqfs_file_t *f) { (void)f; return "memfile"; }
+static void mf_init(memfile_t *m)
+{
+	memset(m, 0, sizeof(*m));
+	m->base.base.destroy = mf_destroy;
+	m->base.read_at = mf_read_at;
+	m->base.write_at = mf_write_at;
+	m->base.get_size = mf_get_size;
+	m->base.truncate = mf_truncate;
+	m->base.get_filename = mf_name;
+}
+static void put16(unsigned char *p, unsigned v) { p[0] = v; p[1] = v >> 8; }
+static void put32(unsigned char *p, unsigned long v) { p[0] = v; p[1] = v >> 8; p[2] = v >> 16; p[3] = v >> 24; }
+
+/* an option block as an image would hold it behind the super block: mostly in range, sometimes not, sometimes with a wrong header */
+static void comp_option_block(memfile_t *m, uint64_t code)
+{
+	unsigned char *o = m->data + sizeof(sqfs_super_t);
+	uint64_t v = code >> 8;
+	size_t sz = 8;
+	int bad = (v >> 40) % 4 == 0;
+	mf_init(m);
+	switch (comp_id) {
+	case SQFS_COMP_GZIP:
+		put32(o + 2, bad && (v & 1) ? (v >> 1) % 3 * 5 : 1 + v % 9);
+		put16(o + 6, bad && !(v & 1) ? (v >> 1) % 20 : 8 + (v >> 8) % 8);
+		put16(o + 8, (v >> 16) % 3 ? 0 : (v >> 20) & (bad ? 0xFFFF : SQFS_COMP_FLAG_GZIP_ALL));
+		break;
+	case SQFS_COMP_XZ:
+		put32(o + 2, bad ? (unsigned long)(v >> 4) : (((v >> 4) & 1) ? 8192 : 12288) << (v % 4));
+		put32(o + 6, (v >> 16) % 3 ? 0 : (v >> 20) & (bad ? 0xFFFF : SQFS_COMP_FLAG_XZ_ALL));
+		break;
+	case SQFS_COMP_LZ4:
+		put32(o + 2, bad ? v % 3 : 1);
+		put32(o + 6, v & 1);
+		break;
+	case SQFS_COMP_ZSTD:
+		sz = 4;
+		put32(o + 2, bad ? (unsigned long)v : 1 + v % 22);
+		break;
+	default:
+		sz = 4;
+		break;
+	}
+	put16(o, ((v >> 44) % 16 == 0 ? 0x4000 : 0x8000) | ((v >> 48) % 16 == 0 ? sz + 1 : sz));
+	m->size = sizeof(sqfs_super_t) + 2 + ((v >> 52) % 16 == 0 ? sz - 1 : sz);
+}
+
 static void *comp_create(int which)
 {
 	sqfs_compressor_config_t cfg;
@@ -153,6 +223,22 @@ static uint64_t comp_op(void *obj, uint64_t code)
 	if (code % 11 == 0) {
 		c->get_configuration(c, &cfg);
 		return H(h, &cfg, sizeof(cfg));
+	}
+	if (code % 11 == 1 && comp_options_ops) {
+		/* the option block of an image is read into this object (also into a compressing one, as the API allows) */
+		memfile_t m;
+		comp_option_block(&m, code);
+		ret = c->read_options(c, &m.base);
+		h = HV(h, ret);
+		c->get_configuration(c, &cfg);
+		return H(h, &cfg, sizeof(cfg));
+	}
+	if (code % 11 == 2 && comp_options_ops) {
+		memfile_t m;
+		mf_init(&m);
+		ret = c->write_options(c, &m.base);
+		h = HV(h, ret);
+		return H(h, m.data, sizeof(m.data));
 	}
 	fill(in, n, code);
 	if (!comp_uncompress) {
@@ -515,6 +601,7 @@ int main(int argc, char **argv)
 	fail_copies = argc > 6 && !strcmp(argv[6], "failcopy");
 	if (open_image() != 0) { printf("HARNESS-ERROR cannot open image\n"); return 2; }
 	comp_variant = (strtoull(argv[2], NULL, 0) % 4 == 0) ? 0 : (rng >> 7) | 1;
+	comp_options_ops = (strtoull(argv[2], NULL, 0) / 4) % 2;
 
 	for (i = 0; i < 10; ++i)
 		if (!strcmp(argv[1], comps[i].name)) {
